@@ -56,6 +56,10 @@ var defaultSinks = []string{
 	"github.com/uber/jaeger",
 	"log/slog",
 	"log",
+	"html/template",
+	"text/template",
+	"expvar",
+	"flag",
 }
 
 // LoadEngine loads the packages matching patterns from repoDir with the overlay
@@ -118,6 +122,9 @@ func LoadEngine(repoDir string, overlayDir string, patterns []string) (*Engine, 
 	for _, p := range prog.AllPackages() {
 		e.byPath[p.Pkg.Path()] = p
 	}
+	for _, p := range []string{"runtime", "reflect", "internal/reflectlite", "syscall", "os", "internal/poll", "internal/cpu", "internal/godebug", "net", "net/http", "crypto/tls", "unicode"} {
+		e.skipInit[p] = true
+	}
 	if rt := e.byPath["runtime"]; rt != nil {
 		if t := rt.Type("errorString"); t != nil {
 			e.runtimeErrorString = t.Object().Type()
@@ -156,8 +163,8 @@ func (e *Engine) noteInitFailure(pkg, msg string) {
 	e.mu.Lock()
 	defer e.mu.Unlock()
 	if _, ok := e.initFailures[pkg]; !ok {
-		if len(msg) > 300 {
-			msg = msg[:300]
+		if len(msg) > 2500 {
+			msg = msg[:2500]
 		}
 		e.initFailures[pkg] = msg
 	}
